@@ -1,0 +1,26 @@
+//go:build verif
+// +build verif
+
+package transport
+
+import (
+	"net"
+
+	"github.com/TarsCloud/TarsGo/tars/util/gpool"
+)
+
+// Verification hook (build tag verif only): VerifServerRecv with the server handed to the caller before the real
+// tcpHandler.recv loop starts, so that a scripted connection can mark it closed (VerifC12StoreClosed) between two
+// reads. Nothing else changes.
+func VerifServerRecvOn(protocol ServerProtocol, config *TarsServerConf, conn net.Conn, ready func(ts *TarsServer)) {
+	ts := NewTarsServer(protocol, config)
+	h := &tcpHandler{config: config, server: ts}
+	if config.MaxInvoke > 0 {
+		h.pool = gpool.NewPool(int(config.MaxInvoke), config.QueueCap)
+		defer h.pool.Release()
+	}
+	if ready != nil {
+		ready(ts)
+	}
+	h.recv(&connInfo{conn: conn})
+}
